@@ -363,4 +363,7 @@ macro "rx6_auto" : tactic => `(tactic| repeat' rx6_step)
 macro "rx6_autos" : tactic => `(tactic| repeat' (rx6_step <;> rx6_subst))
 
 
+/-- a leaf that answers `false` without having moved; leaves the negative fact about the input -/
+macro "rx6_falsen" : tactic => `(tactic| (refine ⟨?k, ?u⟩; (case k => rx6_keep); (case' u => rw [if_neg (by decide)]); refine ⟨by rx6_at, ?_⟩))
+
 end DL.Rx
